@@ -12,9 +12,9 @@ Z3 = 'z3-new'
 CVC5 = '/usr/bin/cvc5'
 
 
-def to_smt2(ob, axioms=(), rounds=2):
+def to_smt2(ob, axioms=(), rounds=2, small=False):
     so = Solver()
-    base = list(ob.hyps) + list(ob.extra or []) + [Not(ob.goal)] + list(axioms)
+    base = list(ob.small if small else ob.hyps) + list(ob.extra or []) + [Not(ob.goal)] + list(axioms)
     so.add(*base)
     uf = unfoldings(base, rounds=rounds, opaque=getattr(ob, 'opaque', ()))
     so.add(*uf)
@@ -81,7 +81,13 @@ def discharge_texts(items, timeout=10, jobs=16, both=False):
         if it.get('smt2') is None:
             r = dict(verdict='unknown', solver='-', time=0.0, err='serialisation failed')
         else:
-            r = solve_text(it['smt2'], timeout, workdir, f'q{i}', both=both)
+            r = None
+            if it.get('smt2_small'):        # fewer hypotheses first: only `unsat` counts there
+                r0, dt0, _ = _run([Z3, '-smt2', '-T:3', _write(workdir, f'q{i}s', it['smt2_small'])], 3)
+                if r0 == 'unsat':
+                    r = dict(verdict='unsat', solver='z3-5.1.0(small context)', time=dt0, err='')
+            if r is None:
+                r = solve_text(it['smt2'], timeout, workdir, f'q{i}', both=both)
         r.update(name=it['name'], fn=it['fn'], kind=it['kind'], line=it['line'], goal=it['goal'], nhyps=it['nhyps'])
         v = r['verdict']
         r['status'] = 'proved' if v == 'unsat' else ('refuted' if v == 'sat' else 'undecided')
@@ -96,14 +102,22 @@ def discharge_texts(items, timeout=10, jobs=16, both=False):
     return results
 
 
+def _write(workdir, tag, txt):
+    path = os.path.join(workdir, tag + '.smt2')
+    with open(path, 'w') as f:
+        f.write(txt)
+    return path
+
+
 def serialise(obligs, rounds=2):
     out = []
     for ob in obligs:
         try:
             txt = to_smt2(ob, (), rounds)
+            small = to_smt2(ob, (), rounds, small=True) if getattr(ob, 'small', None) is not None else None
         except Exception:
-            txt = None
-        out.append(dict(name=ob.name, fn=ob.fn, kind=ob.kind, line=ob.line, goal=str(ob.goal)[:400], nhyps=len(ob.hyps), smt2=txt))
+            txt, small = None, None
+        out.append(dict(name=ob.name, fn=ob.fn, kind=ob.kind, line=ob.line, goal=str(ob.goal)[:400], nhyps=len(ob.hyps), smt2=txt, smt2_small=small))
     return out
 
 
@@ -122,6 +136,13 @@ def discharge(obligs, axioms=(), timeout=10, jobs=16, both=False, rounds=2, keep
         if texts[i] is None:
             return i, dict(verdict='unknown', solver='-', time=0.0, err='serialisation failed')
         tag = f'q{i}'
+        if getattr(obligs[i], 'small', None) is not None:
+            try:
+                r0, dt0, _ = _run([Z3, '-smt2', '-T:3', _write(workdir, tag + 's', to_smt2(obligs[i], axioms, rounds, small=True))], 3)
+                if r0 == 'unsat':
+                    return i, dict(verdict='unsat', solver='z3-5.1.0(small context)', time=dt0, err='')
+            except Exception:
+                pass
         return i, solve_text(texts[i], timeout, workdir, tag, both=both)
     with ThreadPoolExecutor(max_workers=jobs) as ex:
         for i, r in ex.map(work, range(len(obligs))):
